@@ -142,6 +142,7 @@ def run(chk):  # noqa: F811
     p1_resolve_entity(chk)
     p2_get_next(chk)
     p3_tokenize_precondition(chk)
+    p4_regex_ambiguity(chk)
     bounded_compute_path(chk)
     bounded_parse(chk)
     chk.assumptions += [
@@ -238,3 +239,90 @@ def replay_parse_txt(model, obligation):
             except Exception as e:  # noqa: BLE001
                 return True, {"call": f"{how}({s!r})", "raised": f"{type(e).__name__}: {e}"}, "tokenize_empty"
     return False, {"cases": 2 * len(cands)}, None
+
+
+# ----------------------------------------------------------------------------- P4: no regular expression of the parser has exponential ambiguity
+_RECORDER = r'''
+import json, re, sys
+seen = {}
+_orig = re._compile
+def _rec(pattern, flags):
+    r = _orig(pattern, flags)
+    try:
+        if isinstance(pattern, (str, bytes)):
+            f = sys._getframe(1)
+            while f is not None and f.f_code.co_filename.endswith(("/re/__init__.py", "/re.py")):
+                f = f.f_back
+            where = f"{f.f_code.co_filename}:{f.f_lineno}" if f else "?"
+            if "/mwlib/" in where:
+                seen.setdefault((r.pattern if isinstance(r.pattern, str) else r.pattern.decode("latin-1"), int(r.flags)), where.split("/mwlib/")[-1])
+    except Exception:
+        pass
+    return r
+re._compile = _rec
+import importlib, pkgutil
+import mwlib.parser, mwlib.parser.refine, mwlib.parser.templ, mwlib.parser.token
+for pkg in (mwlib.parser, mwlib.parser.refine, mwlib.parser.templ, mwlib.parser.token):
+    for mi in pkgutil.iter_modules(pkg.__path__):
+        if not mi.ispkg:
+            try:
+                importlib.import_module(pkg.__name__ + "." + mi.name)
+            except Exception:
+                pass
+for n in ("mwlib.core.nshandling", "mwlib.extensions.imgmap", "mwlib.utils.uniq", "mwlib.parser.expander", "mwlib.parser.tagext"):
+    importlib.import_module(n)
+sys.path.insert(0, sys.argv[1])
+from contracts import docs
+text = "".join(docs.LEXEMES) + "\n" + "\n".join(docs.tag_documents()[:400]) + "\n#REDIRECT [[x]]\n{{#if:a|b}}{{#switch:a|a=1}}{{#time:Y|2001}}{{#expr:1+1}}"
+for lang in ("en", "de", "fr"):
+    for db in (True, False):
+        try:
+            docs.parse(text, lang, db)
+        except Exception as e:
+            pass
+json.dump([[p, f, w] for (p, f), w in seen.items()], sys.stdout)
+'''
+
+
+def p4_regex_ambiguity(chk):
+    import json
+    import os
+    import re
+    import subprocess
+    import sys
+    from pyvc import regexamb, source
+    verif = os.path.dirname(os.path.dirname(os.path.abspath(__file__)))
+    env = dict(os.environ, PYTHONPATH=os.path.join(source.REPO, "src") if hasattr(source, "REPO") else os.environ.get("PYTHONPATH", ""))
+    out = subprocess.run([sys.executable, "-c", _RECORDER, verif], capture_output=True, text=True, env=env, timeout=600)
+    if out.returncode != 0:
+        chk.crashes.append("regex recorder failed: " + out.stderr[-400:])
+        return
+    pats = json.loads(out.stdout)
+    n_ok, cands = 0, []
+    for pattern, flags, where in sorted(pats, key=lambda x: x[2]):
+        name = f"regex.no_exponential_ambiguity[{where}]"
+        try:
+            c = regexamb.analyse(pattern, flags)
+        except Exception as e:  # noqa: BLE001
+            chk.undecided.append((f"{chk.prop}.{name}", f"regex analysis failed: {type(e).__name__}: {e}"))
+            continue
+        if c is None:
+            chk.static(name, True, f"{pattern!r:.80}: squared position automaton has no component with a diagonal and an off-diagonal pair")
+            n_ok += 1
+            continue
+        if "skipped" in c:
+            chk.undecided.append((f"{chk.prop}.{name}", f"automaton too large: {c['skipped']}"))
+            continue
+        ok, info = regexamb.confirm(re.compile(pattern, flags), c)
+        if ok:
+            chk.static(name, False, f"{pattern!r:.120} backtracks exponentially: matching time {info['times']} for pump word {c['pump']!r} after {c['prefix']!r}",
+                       witness={"pattern": pattern, "flags": flags, "where": where, "input": info["input"], "method": info["method"], "times": info["times"]},
+                       witness_class="exponential_regex", reproduced=True)
+        else:
+            # over-approximations of the encoding (look-arounds, atomic groups, sre's own pruning): candidate only
+            cands.append({"where": where, "pattern": pattern[:120], "candidate": c, "replay": info})
+            chk.static(name, True, f"{pattern!r:.80}: ambiguity candidate (pump {c['pump']!r}) did NOT reproduce on the real pattern object: {info}")
+    chk.extra["regex_ambiguity"] = {"patterns_analysed": len(pats), "unambiguous": n_ok, "candidates_not_reproduced": cands,
+                                    "how_collected": "re._compile recorded in a fresh interpreter while importing mwlib.parser.* / nshandling / imgmap / uniq / tagext and parsing a document of all lexemes and tag names in en/de/fr with and without a wikidb"}
+    if not pats:
+        chk.crashes.append("regex recorder saw no pattern")
